@@ -12,6 +12,14 @@ with 1/4(/16) threads, SQLite) and the compiled model on the same node/edge tabl
 * tie-containing inputs: the real output must satisfy partition + constraint and, for <= 7
   records, be one of the tables the model returns under SOME oracle pair (enumerated by the
   driver op `sbl_all`); a disconnected cluster on such an input is the known finding K4.
+Presentation (audit round): the same records reach `Linker(...)` in every input form the signature accepts - frames,
+lists of dicts / dicts of lists, NAMES of tables already in the database with input_table_aliases equal to / different from /
+a permutation of the table names, several tables carrying their own source_dataset column, ONE pre-concatenated table (frame
+or name) - with varying dataset names, id types, column names and orders, shapes of the duplicate_free_datasets argument, edge
+tables labelled by the caller or by Splink's own predict(), and an earlier call on the same linker.  The oracle identifies
+records by a payload column and takes their datasets from the case (never from Splink's labels); that every record's
+source_dataset value IS its dataset name is a clause of its own, and all presentations of one tie-free input must return the
+same clusters.
 """
 from __future__ import annotations
 
@@ -25,12 +33,115 @@ PROP = "C12"
 LOGGER = "splink.internals.one_to_one_clustering"
 ENTRY = "cluster_using_single_best_links"
 K4_FAILURE = "cluster not connected through kept edges"
+LABEL_FAILURE = "source_dataset value of a record is not the name of its dataset"
+SWEEP_FAILURE = "the same data presented in different input forms gives different clusters"
 NAMES = ["a", "b", "c", "d"]
+PAY = "pay"  # payload column (the record's index in the case): the oracle identifies records by it, never by Splink's labels
+DEFAULT_COLS = {"uid": "unique_id", "sds": "source_dataset"}
+# dataset names (they become input_table_aliases / source_dataset values and are spliced into `contains_<name>`)
+NAME_POOLS = {
+    "a,b,c,d": NAMES,
+    "A,B,C,D": ["A", "B", "C", "D"],
+    "df_left,df_right,...": ["df_left", "df_right", "df_3", "df_4"],
+    "mixed case": ["customers", "Callers", "web_forms", "X1"],
+    "one a prefix of another": ["a", "ab", "a_b", "abc"],
+}
+# how the SAME records are handed to Linker(...):
+PER_DATASET_FORMS = [
+    "frames",          # one pandas frame per dataset, input_table_aliases = dataset names (the classic form)
+    "pylist",          # one list-of-dicts / dict-of-lists per dataset, aliases = dataset names
+    "names-same",      # tables already in the database, passed as NAMES (strings); aliases = the table names
+    "names-diff",      # tables already in the database under OTHER names (tbl_<j>_<name>), passed as strings; aliases = dataset names
+    "names-permuted",  # tables already in the database, named like the datasets but cyclically shifted; aliases = dataset names
+]
+OWN_COLUMN_FORMS = [
+    "own-sds-tables",    # several frames that each carry their own source_dataset column (aliases arbitrary or absent)
+    "concat-one-frame",  # ONE pre-concatenated frame carrying source_dataset
+    "concat-one-name",   # ONE pre-concatenated table already in the database, passed as its name
+]
+FORMS = PER_DATASET_FORMS + OWN_COLUMN_FORMS
 
 
 # --------------------------------------------------------------------------- real code
+def _create_table(api, engine: str, frame, name: str, how: str):
+    """Put `frame` into the database as table `name` BEFORE the Linker exists (so that it is handed over by name)."""
+    if how == "register_table":
+        api.register_table(frame, name)
+    elif engine == "duckdb":
+        api._con.register("__c12_src", frame)
+        api._con.execute(f"create table {name} as select * from __c12_src")
+        api._con.unregister("__c12_src")
+    else:
+        frame.to_sql(name, api.con, index=False)
+
+
+def build_inputs(case: dict, api, node_order):
+    """(input_table_or_tables, input_table_aliases) for the case's input form; every record carries its case index in PAY."""
+    from harness import impl
+
+    ids, sds = case["ids"], case["sds"]
+    cols = {**DEFAULT_COLS, **(case.get("cols") or {})}
+    uc, sc = cols["uid"], cols["sds"]
+    form = case.get("form", "frames")
+    idt = case.get("id_type", "int")
+    own = form in OWN_COLUMN_FORMS
+    types = {uc: idt, "v": "str", PAY: "int", **({sc: "str"} if own else {})}
+
+    def rows_of(members):
+        return [{uc: (str(ids[i]) if idt == "str" else ids[i]), "v": "x", PAY: i, **({sc: sds[i]} if own else {})} for i in members]
+
+    def frame(members, j):
+        keys = list(types)
+        if case.get("col_order") is not None:  # the tables list the same columns in different orders
+            random.Random(case["col_order"] * 31 + j).shuffle(keys)
+        return impl.typed_frame(rows_of(members), {c: types[c] for c in keys})
+
+    if form in PER_DATASET_FORMS:
+        names = sorted(set(sds))
+        if case.get("empty_ds"):
+            names.append(case["empty_ds"])  # a dataset without records (an empty input table)
+        if case.get("shuffle") is not None:
+            random.Random(case["shuffle"] + 1).shuffle(names)  # the order of the input tables is arbitrary
+        groups = [[i for i in node_order if sds[i] == nm] for nm in names]
+        if form == "frames":
+            return [frame(g, j) for j, g in enumerate(groups)], names
+        if form == "pylist":
+            tabs = []
+            for j, g in enumerate(groups):
+                rs = rows_of(g)
+                tabs.append(rs if j % 2 == 0 else {c: [r[c] for r in rs] for c in types})
+            return tabs, names
+        k = len(names)
+        phys = {"names-same": names, "names-diff": [f"tbl_{j}_{nm}" for j, nm in enumerate(names)],
+                "names-permuted": [names[(j + 1) % k] for j in range(k)]}[form]
+        for j, g in enumerate(groups):
+            _create_table(api, case["engine"], frame(g, j), phys[j], case.get("created_by", "sql"))
+        return list(phys), names
+    if form == "own-sds-tables":
+        split = case["table_split"]
+        m = max(split) + 1
+        groups = [[i for i in node_order if split[i] == t] for t in range(m)]
+        return [frame(g, j) for j, g in enumerate(groups)], ([f"t{j}" for j in range(m)] if case.get("aliases") else None)
+    alias = "all_records" if case.get("aliases") else None  # a bare string, as the signature allows
+    fr = frame(list(node_order), 0)
+    if form == "concat-one-frame":
+        return (fr if case.get("bare", True) else [fr]), alias
+    _create_table(api, case["engine"], fr, "tbl_all", case.get("created_by", "sql"))
+    return ("tbl_all" if case.get("bare", True) else ["tbl_all"]), alias
+
+
+def threshold_kw(c: dict) -> dict:
+    if c.get("thr_kind") == "none":
+        return {}  # both thresholds left at their default None
+    return {"threshold_match_weight" if c.get("thr_kind") == "weight" else "threshold_match_probability": c["thr"]}
+
+
 def run_impl(case: dict) -> dict:
-    """Run the real Splink code on one case; returns (node index, cluster node index) rows + iteration trace."""
+    """Run the real Splink code on one case; returns (record index, record index of the cluster id) rows, the
+    (record index, source_dataset label) pairs and the iteration trace.  Records are identified by their payload column."""
+    import logging
+
+    import splink.comparison_library as cl
     from splink import Linker, SettingsCreator
 
     from harness import impl
@@ -38,32 +149,71 @@ def run_impl(case: dict) -> dict:
     api = impl.make_api(case["engine"], threads=case.get("threads", 2))
     ids, sds = case["ids"], case["sds"]
     n = len(ids)
+    cols = {**DEFAULT_COLS, **(case.get("cols") or {})}
+    uc, sc = cols["uid"], cols["sds"]
+    idt = case.get("id_type", "int")
     node_order = list(range(n))
     edges = list(case["edges"])
     if case.get("shuffle") is not None:  # corpus cases may pin the row order (tie-breaks depend on it)
         rng = random.Random(case["shuffle"])
         rng.shuffle(node_order)
         rng.shuffle(edges)
-    names = sorted(set(sds))
-    frames = []
-    for nm in names:
-        rows_ = [{"unique_id": ids[i], "v": "x"} for i in node_order if sds[i] == nm]
-        frames.append(impl.typed_frame(rows_, {"unique_id": "int", "v": "str"}))
-    settings = SettingsCreator(link_type=case.get("link_type", "link_and_dedupe"), comparisons=[], blocking_rules_to_generate_predictions=[])
-    linker = Linker(frames, settings, api, input_table_aliases=names)
+    tables, aliases = build_inputs(case, api, node_order)
+    from_predict = case.get("edge_labels") == "predict"
+    extra = {}
+    if cols != DEFAULT_COLS:
+        extra = {"unique_id_column_name": uc, "source_dataset_column_name": sc}
+    settings = SettingsCreator(
+        link_type=case.get("link_type", "link_and_dedupe"),
+        comparisons=[cl.ExactMatch("v")] if from_predict else [],
+        blocking_rules_to_generate_predictions=["1=1"] if from_predict else [],
+        additional_columns_to_retain=[PAY], **extra)
+    linker = Linker(tables, settings, api, input_table_aliases=aliases)
+    # how a record is named in the edge table: by the dataset names the caller declared, or exactly as Splink's own predict() names it
+    label = {i: (sds[i], str(ids[i]) if idt == "str" else ids[i]) for i in range(n)}
+    if from_predict:
+        old = logging.root.manager.disable
+        logging.disable(logging.CRITICAL)
+        try:
+            pairs = linker.inference.predict().as_record_dict()
+        finally:
+            logging.disable(old)
+        for r in pairs:
+            for side in "lr":
+                if r.get(f"{PAY}_{side}") is not None:
+                    label[int(r[f"{PAY}_{side}"])] = (r[f"{sc}_{side}"], r[f"{uc}_{side}"])
     erows = [
-        {"source_dataset_l": sds[a], "unique_id_l": ids[a], "source_dataset_r": sds[b], "unique_id_r": ids[b], "match_probability": p}
+        {f"{sc}_l": label[a][0], f"{uc}_l": label[a][1], f"{sc}_r": label[b][0], f"{uc}_r": label[b][1], "match_probability": p}
         for a, b, p in edges
     ]
-    types = {"source_dataset_l": "str", "unique_id_l": "int", "source_dataset_r": "str", "unique_id_r": "int", "match_probability": "float"}
+    types = {f"{sc}_l": "str", f"{uc}_l": idt, f"{sc}_r": "str", f"{uc}_r": idt, "match_probability": "float"}
     df_predict = linker.table_management.register_table_predict(impl.typed_frame(erows, types), overwrite=True)
-    kw = {"threshold_match_weight" if case.get("thr_kind") == "weight" else "threshold_match_probability": case["thr"]}
+
+    def dupfree_arg(c):
+        return tuple(c["dupfree"]) if case.get("dupfree_as") == "tuple" else list(c["dupfree"])
+
+    if case.get("warmup"):  # an earlier call on the same linker with other arguments (its intermediate tables must not leak)
+        w = case["warmup"]
+        old = logging.root.manager.disable
+        logging.disable(logging.CRITICAL)
+        try:
+            linker.clustering.cluster_using_single_best_links(df_predict, duplicate_free_datasets=dupfree_arg(w), **threshold_kw(w)).as_record_dict()
+        finally:
+            logging.disable(old)
     with impl.capture_log(LOGGER) as msgs:
-        out = linker.clustering.cluster_using_single_best_links(df_predict, duplicate_free_datasets=list(case["dupfree"]), **kw)
+        out = linker.clustering.cluster_using_single_best_links(df_predict, duplicate_free_datasets=dupfree_arg(case), **threshold_kw(case))
         rows = out.as_record_dict()
-    key = {f"{sds[i]}{impl.SEP}{ids[i]}": i for i in range(n)}
-    res = [(key.get(f"{r['source_dataset']}{impl.SEP}{r['unique_id']}", -1), key.get(str(r["cluster_id"]), -1)) for r in rows]
-    return {"rows": sorted(res), "trace": impl.cc_trace(msgs)}
+
+    def idx(x):
+        return int(x) if isinstance(x, (int, float)) and x == x and 0 <= int(x) < n else -1
+
+    comp: dict[str, int] = {}
+    for r in rows:  # composite id -> record, read off the OUTPUT's own columns (whatever labels Splink gave)
+        k = f"{r.get(sc)}{impl.SEP}{r.get(uc)}"
+        comp[k] = -1 if k in comp else idx(r.get(PAY))
+    res = [(idx(r.get(PAY)), comp.get(str(r.get("cluster_id")), -1)) for r in rows]
+    labels = [(idx(r.get(PAY)), r.get(sc)) for r in rows]
+    return {"rows": sorted(res), "labels": sorted(labels, key=str), "trace": impl.cc_trace(msgs)}
 
 
 run_impl_safe = core.safe(run_impl)
@@ -75,7 +225,9 @@ def threshold_prob(case: dict) -> float:
     if case.get("thr_kind") == "weight":
         bf = 2.0 ** case["thr"]
         return bf / (1.0 + bf)
-    return case["thr"]
+    if case.get("thr_kind") == "none":
+        return 0.0  # no threshold given: every edge is kept (probabilities are non-negative)
+    return float(case["thr"])
 
 
 def node_keys(case: dict) -> list[str]:
@@ -94,7 +246,7 @@ def model_request(case: dict, op: str = "sbl") -> tuple[dict, list[int]]:
         "op": op,
         "n": len(keys),
         "ds": [dsi[case["sds"][order[r]]] for r in range(len(keys))],
-        "dupfree": [dsi[d] for d in case["dupfree"]],
+        "dupfree": sorted({dsi[d] for d in case["dupfree"]}),  # the argument may repeat a name
         "edges": [[rank[a], rank[b], core.f2b(p)] for a, b, p in case["edges"]],
         "thr": core.f2b(threshold_prob(case)),
     }
@@ -122,14 +274,22 @@ def is_threshold_fragile(case: dict) -> bool:
     return any(p != t and abs(p - t) <= 1e-12 for _, _, p in case["edges"])
 
 
-def oracle_verdicts(case: dict, rows) -> list[str]:
+def oracle_verdicts(case: dict, rows, labels=None) -> list[str]:
     """Every clause of C12 the real output breaks on this case (empty list = property holds).
-    Maximality is only demanded of tie-free inputs (the property's wording)."""
+    Maximality is only demanded of tie-free inputs (the property's wording).  Records are the case's indices (read from the
+    payload column of the output), their datasets are the case's `sds` (the names the caller gave: input_table_aliases or the
+    tables' own source_dataset column) - not whatever Splink wrote into source_dataset, which is checked as a clause of its own."""
     n = len(case["ids"])
     out = []
     seen = sorted(i for i, _ in rows)
     if seen != list(range(n)):
         return [f"records not returned exactly once: got node indices {seen} for {n} records"]
+    if labels is not None:
+        bad = [(i, lab, case["sds"][i]) for i, lab in labels if 0 <= i < n and lab != case["sds"][i]]
+        if bad:
+            i, lab, want = bad[0]
+            out.append(f"{LABEL_FAILURE}: record {i} (dataset {want!r}, id {case['ids'][i]}) is labelled {lab!r}; {len(bad)} of {n} records mislabelled "
+                       f"(duplicate_free_datasets={list(case['dupfree'])} names datasets, so the constraint cannot apply to them)")
     cl = dict(rows)
     members: dict[int, list[int]] = {}
     for i in range(n):
@@ -199,13 +359,79 @@ def finish_case(rng: random.Random, sds, ids, edges, dupfree, thr, thr_kind, eng
 def pick_threshold(rng: random.Random, probs):
     r = rng.random()
     ps = sorted(set(probs))
-    if ps and r < 0.4:
+    if ps and r < 0.36:
         return rng.choice(ps), "prob"  # exactly on an edge probability (>= keeps it)
-    if r < 0.55:
+    if r < 0.48:
         return 0.0, "prob"
-    if r < 0.85:
+    if r < 0.52:
+        return 0, "prob"  # the integer 0: given, but falsy
+    if r < 0.56:
+        return 1.0, "prob"  # keeps only edges of probability 1
+    if r < 0.58:
+        return 1, "prob"
+    if r < 0.84:
         return round(rng.uniform(0.05, 0.9), 3), "prob"
+    if r < 0.88:
+        return 0, "weight"  # weight 0 = probability 0.5 (given, but falsy)
     return round(rng.uniform(-4, 4), 2), "weight"
+
+
+# --------------------------------------------------------------------------- presentation of a case (input forms)
+def rename_datasets(case: dict, pool_name: str) -> dict:
+    m = dict(zip(NAMES, NAME_POOLS[pool_name]))
+    c = dict(case)
+    c["sds"] = [m[x] for x in case["sds"]]
+    c["dupfree"] = [m[x] for x in case["dupfree"]]
+    c["names"] = pool_name
+    return c
+
+
+def present(rng: random.Random, case: dict, form: str | None = None, edge_labels: str | None = None, pool: str | None = None) -> dict:
+    """The same records / edges / subset in another PRESENTATION: input form of the linker, dataset names, id type, column
+    names and orders, the shape of the duplicate_free_datasets argument, an earlier call on the same linker.
+    `case` must still use the dataset names a, b, c, d."""
+    c = rename_datasets(case, pool or rng.choice(list(NAME_POOLS)))
+    pool_names = NAME_POOLS[c["names"]]
+    form = form or rng.choice(FORMS)
+    c["form"] = form
+    c["edge_labels"] = edge_labels or rng.choice(["declared", "predict"])
+    c["id_type"] = rng.choice(["int", "int", "str"])
+    if rng.random() < 0.3:
+        c["cols"] = {"uid": "rid", "sds": "src"}  # unique_id_column_name / source_dataset_column_name of the settings
+    if rng.random() < 0.4:
+        c["col_order"] = rng.randrange(1000)
+    c["created_by"] = rng.choice(["sql", "register_table"])
+    c["aliases"] = rng.random() < 0.5
+    c["bare"] = rng.random() < 0.5
+    n = len(c["ids"])
+    if form == "own-sds-tables":
+        if rng.random() < 0.5:  # one table per dataset ...
+            order = sorted(set(c["sds"]))
+            c["table_split"] = [order.index(x) for x in c["sds"]]
+        else:  # ... or the records spread over 2-3 tables regardless of their dataset
+            m = rng.randint(2, min(3, n))
+            split = list(range(m)) + [rng.randrange(m) for _ in range(n - m)]
+            rng.shuffle(split)
+            c["table_split"] = split
+    # the duplicate_free_datasets argument: order, container, a repeated name, a dataset without records
+    dup = list(c["dupfree"])
+    rng.shuffle(dup)
+    absent = [x for x in pool_names if x not in set(c["sds"])]
+    r = rng.random()
+    if r < 0.12:
+        dup.insert(rng.randrange(len(dup) + 1), rng.choice(dup))
+    elif r < 0.3 and absent:
+        nm = rng.choice(absent)
+        dup.insert(rng.randrange(len(dup) + 1), nm)
+        if form in PER_DATASET_FORMS and form != "pylist" and rng.random() < 0.6:
+            c["empty_ds"] = nm  # ... that is an (empty) input table of its own
+    c["dupfree"] = dup
+    c["dupfree_as"] = rng.choice(["list", "list", "tuple"])
+    if rng.random() < 0.12:
+        others = [d for d in all_subsets(sorted(set(c["sds"]))) if sorted(d) != sorted(set(c["dupfree"]))]
+        c["warmup"] = {"dupfree": rng.choice(others), "thr": rng.choice([0.0, 0.5, c["thr"] if c["thr_kind"] == "prob" else 0.3]),
+                       "thr_kind": "prob"}
+    return c
 
 
 def gen_tiefree(rng: random.Random, nmax: int, engine: str, dupfree_cycle, threads=None):
@@ -219,6 +445,10 @@ def gen_tiefree(rng: random.Random, nmax: int, engine: str, dupfree_cycle, threa
     m = min(len(pairs), rng.randint(1, {"dense": 3 * n, "gnp": 2 * n, "bip": 2 * n}[fam]))
     chosen = rng.sample(pairs, m)
     grid = rng.sample(range(1, 1000), m)  # pairwise distinct probabilities
+    if rng.random() < 0.12:
+        grid[grid.index(max(grid))] = 1000  # probability exactly 1
+    if rng.random() < 0.12:
+        grid[grid.index(min(grid))] = 0  # probability exactly 0 (kept by a threshold of 0)
     edges = [(a, b, g / 1000.0) for (a, b), g in zip(chosen, grid)]
     if rng.random() < 0.15:
         v = rng.randrange(n)
@@ -285,6 +515,73 @@ def gen_exhaustive(rng: random.Random, count: int):
     return out, len(space)
 
 
+_DUCK_LIT: dict = {}
+
+
+def literal_exact(engine: str, x: float) -> bool:
+    """Does the engine read the decimal literal repr(x) as the double x?  Splink inlines thresholds as text.  DuckDB types a
+    literal of <= 18 digits DECIMAL and converts it to DOUBLE inexactly (about 6% of 17-digit literals arrive one ulp off, none
+    of <= 6 digits; design_probes/audit_c12_2.py); SQLite 3.40 has the same quirk for a few literals (core.sqlite_literal_exact).
+    Both are engine behaviour (trusted base), so a threshold meant to lie exactly ON an edge probability is drawn among the
+    values the engine reads exactly."""
+    if engine == "sqlite":
+        return core.sqlite_literal_exact(x)
+    key = repr(float(x))
+    if key not in _DUCK_LIT:
+        import duckdb
+
+        con = duckdb.connect()
+        try:
+            _DUCK_LIT[key] = bool(con.execute(f"select {key} = ?", [float(x)]).fetchone()[0])
+        finally:
+            con.close()
+    return _DUCK_LIT[key]
+
+
+def gen_fine(rng: random.Random, engine: str, dupfree_cycle):
+    """Tie-free inputs whose probabilities differ only from the 8th decimal on, threshold exactly on one of them or between
+    two neighbours: the threshold must reach the SQL with all its digits."""
+    n = rng.randint(3, 8)
+    k = rng.randint(2, min(4, n))
+    sds, ids = make_nodes(rng, n, k)
+    pairs = [(a, b) for a in range(n) for b in range(a + 1, n)]
+    chosen = rng.sample(pairs, min(len(pairs), rng.randint(2, 2 * n)))
+    base = rng.choice([0.5, 0.9, 0.123456, 0.75])
+    steps = rng.sample(range(1, 400), len(chosen))
+    edges = [(a, b, base + st * 1e-9) for (a, b), st in zip(chosen, steps)]
+    ps = sorted(p for _, _, p in edges)
+    j = rng.randrange(len(ps))
+    resampled = False
+    if rng.random() < 0.6:
+        thr = ps[j]  # exactly on an edge probability ...
+        if not literal_exact(engine, thr):  # ... that the engine must read exactly (see literal_exact)
+            exact = [p for p in ps if literal_exact(engine, p)]
+            thr, resampled = (rng.choice(exact) if exact else (ps[0] + ps[1]) / 2), True
+    else:  # between two neighbours (one ulp more or less is immaterial there)
+        thr = (ps[j] + (ps[j + 1] if j + 1 < len(ps) else ps[j] + 2e-9)) / 2
+    subs = all_subsets(NAMES[:k])
+    c = finish_case(rng, sds, ids, edges, subs[next(dupfree_cycle) % len(subs)], thr, "prob", engine, "tiefree-fine")
+    c["literal_resampled"] = resampled
+    return c
+
+
+def gen_formsweeps(rng: random.Random, count: int, dupfree_cycle):
+    """`count` tie-free bases, each presented in EVERY input form (edge labels alternately declared / taken from predict(),
+    engines and the other presentation options varying): all presentations of a base must return the same clusters."""
+    out = []
+    for sid in range(count):
+        base = gen_tiefree(rng, 8, "duckdb", dupfree_cycle)
+        base["tag"] = "formsweep"
+        pool = rng.choice(list(NAME_POOLS))
+        for j, form in enumerate(FORMS):
+            c = present(rng, base, form=form, edge_labels=["declared", "predict"][(sid + j) % 2], pool=pool)
+            c["engine"] = rng.choice(["duckdb", "sqlite"])
+            c["threads"] = rng.choice([1, 4])
+            c["sweep"] = sid
+            out.append(c)
+    return out
+
+
 def gen_cases(ctx: core.Ctx) -> list[dict]:
     rng = ctx.rng
     cyc = itertools.count(rng.randrange(1000))
@@ -310,12 +607,29 @@ def gen_cases(ctx: core.Ctx) -> list[dict]:
             cases.append(gen_tiefree(rng, 12, "duckdb", cyc, threads=16))
         for _ in range(300):
             cases.append(gen_tied(rng, 7, "duckdb", cyc, threads=16))
+    for _ in range(ctx.budget(30, 300)):
+        cases.append(gen_fine(rng, eng(), cyc))
+    # half of the cases above keep the classic presentation (frames, aliases = a..d, int ids, default column names, edges
+    # labelled by the caller); the other half is re-presented in a random input form
+    cases = [present(rng, c) if rng.random() < 0.5 else c for c in cases]
+    cases += gen_formsweeps(rng, ctx.budget(12, 100), cyc)
+    # both thresholds left at their default None (the signature's defaults)
+    for _ in range(ctx.budget(6, 40)):
+        c = gen_tiefree(rng, 7, eng(), cyc)
+        c.update(thr=None, thr_kind="none", tag="tiefree-no-threshold")
+        cases.append(c if rng.random() < 0.5 else present(rng, c))
     return cases
 
 
 # --------------------------------------------------------------------------- comparison
+PRESENTATION_KEYS = ("form", "edge_labels", "id_type", "cols", "col_order", "created_by", "aliases", "bare", "table_split", "empty_ds",
+                     "dupfree_as", "warmup", "link_type")
+
+
 def canon(case: dict):
-    return {k: case[k] for k in ("sds", "ids", "edges", "dupfree", "thr", "thr_kind", "engine", "threads")}
+    d = {k: case[k] for k in ("sds", "ids", "edges", "dupfree", "thr", "thr_kind", "engine", "threads")}
+    d.update({k: case[k] for k in PRESENTATION_KEYS if case.get(k) is not None and "form" in case})
+    return d
 
 
 def compare(ctx: core.Ctx, cases: list[dict], drv: core.Driver):
@@ -343,13 +657,37 @@ def compare(ctx: core.Ctx, cases: list[dict], drv: core.Driver):
         ctx.count("engine", f"{c['engine']}/threads={c['threads']}" if c["engine"] == "duckdb" else c["engine"])
         ctx.count("n_records", "3-4" if n <= 4 else "5-7" if n <= 7 else "8-12" if n <= 12 else ">12")
         ctx.count("n_datasets", len(set(c["sds"])))
-        ctx.count("dupfree_subset", f"{len(c['dupfree'])} of {len(set(c['sds']))}")
-        ctx.count("threshold", "on an edge probability" if any(p == threshold_prob(c) for _, _, p in c["edges"]) else c["thr_kind"])
+        ctx.count("dupfree_subset", f"{len(set(c['dupfree']) & set(c['sds']))} of {len(set(c['sds']))}")
+        ctx.count("threshold", "both thresholds left at None" if c["thr_kind"] == "none" else
+                  "on an edge probability" if any(p == threshold_prob(c) for _, _, p in c["edges"]) else c["thr_kind"])
+        if c["thr_kind"] != "none":
+            ctx.count("threshold_boundary_value", "int 0" if c["thr"] == 0 and isinstance(c["thr"], int) else "int 1" if c["thr"] == 1 and isinstance(c["thr"], int)
+                      else "0.0" if c["thr"] == 0 else "1.0" if c["thr"] == 1 and c["thr_kind"] == "prob" else "needs > 6 decimals" if round(c["thr"], 6) != c["thr"] else "other")
+        ctx.count("edge_probability_extremes", "/".join(x for x, on in (("has p=0", any(p == 0 for _, _, p in c["edges"])), ("has p=1", any(p == 1 for _, _, p in c["edges"]))) if on) or "neither")
         ctx.count("ties", "tie-containing" if ties else "tie-free")
         ctx.count("link_type", c["link_type"])
+        if c.get("literal_resampled"):
+            ctx.count("excluded", "fine-grained threshold on an edge probability whose decimal literal the engine reads one ulp off: another edge probability drawn")
+        form = c.get("form", "frames")
+        ctx.count("input_form", form + (" (classic)" if "form" not in c else ""))
+        if form.startswith("names-") or form == "concat-one-name":
+            ctx.count("tables_passed_by_name_created_by", c.get("created_by", "sql"))
+        if form in OWN_COLUMN_FORMS:
+            ctx.count("input_table_aliases_with_own_source_dataset_column", "given" if c.get("aliases") else "None")
+        if form == "own-sds-tables":
+            ctx.count("own_column_tables", "one table per dataset" if len(set(zip(c["table_split"], c["sds"]))) == len(set(c["sds"])) else "datasets spread over the tables")
+        ctx.count("edge_labels", c.get("edge_labels", "declared") + (" (labels of the library's own predict())" if c.get("edge_labels") == "predict" else " (by the caller, = dataset names)"))
+        ctx.count("dataset_names", c.get("names", "a,b,c,d"))
+        ctx.count("id_type", c.get("id_type", "int"))
+        ctx.count("column_names", "rid / src (settings)" if c.get("cols") else "unique_id / source_dataset")
+        ctx.count("column_order", "differs between tables" if c.get("col_order") is not None else "same")
+        ctx.count("dupfree_argument", ("tuple" if c.get("dupfree_as") == "tuple" else "list") + (", a name repeated" if len(c["dupfree"]) != len(set(c["dupfree"])) else "")
+                  + (", names an empty input table" if c.get("empty_ds") else ", names a dataset without records" if set(c["dupfree"]) - set(c["sds"]) else ""))
+        ctx.count("earlier_call_on_same_linker", "yes" if c.get("warmup") else "no")
         if core.impl_error(r):
-            ctx.count("impl_error", r["__error__"])
-            problems.append((c, f"real code raised {r['__error__']}: {r['text'][:300]}", True, r, {"failure": "real code raised", "entry": ENTRY, "has_ties": ties}))
+            ctx.count("impl_error", r["__error__"] + (" (both thresholds None)" if c["thr_kind"] == "none" else ""))
+            fail = "real code raised" + (" with both thresholds left at their default None" if c["thr_kind"] == "none" else "")
+            problems.append((c, f"{fail} {r['__error__']}: {r['text'][:300]}", True, r, {"failure": fail, "entry": ENTRY, "has_ties": ties}))
             continue
         if "error" in m:
             raise RuntimeError(f"model driver error: {m['error']}")
@@ -359,7 +697,7 @@ def compare(ctx: core.Ctx, cases: list[dict], drv: core.Driver):
             ctx.count("excluded", "weight threshold within 1e-12 of an edge probability")
             continue
         ctx.count("iterations", len(r["trace"]) if len(r["trace"]) < 7 else ">=7")
-        verdicts = oracle_verdicts(c, r["rows"])
+        verdicts = oracle_verdicts(c, r["rows"], r.get("labels"))
         conc = False
         for v in verdicts:
             failure = v.split(":")[0]
@@ -394,6 +732,20 @@ def compare(ctx: core.Ctx, cases: list[dict], drv: core.Driver):
             ctx.count("correspondence", "tied: table is one of the model's outputs over all oracle pairs")
         else:
             ctx.count("correspondence", "tied, > 7 records: invariants only")
+    # the same (tie-free) data in every input form: one cluster table
+    sweeps: dict[int, list[int]] = {}
+    for idx, c in enumerate(cases):
+        if c.get("sweep") is not None and isinstance(res[idx], dict) and "rows" in res[idx]:
+            sweeps.setdefault(c["sweep"], []).append(idx)
+    for sid, idxs in sorted(sweeps.items()):
+        tables = {json.dumps(res[i]["rows"]) for i in idxs}
+        ctx.count("form_sweeps", f"all {len(idxs)} presentations agree" if len(tables) == 1 else "presentations DISAGREE")
+        if len(tables) > 1:
+            first = idxs[0]
+            other = next(i for i in idxs if res[i]["rows"] != res[first]["rows"])
+            problems.append((cases[other], f"{SWEEP_FAILURE}: form {cases[first].get('form')} ({cases[first]['engine']}) gives {res[first]['rows']}, form "
+                             f"{cases[other].get('form')} ({cases[other]['engine']}) gives {res[other]['rows']}", True, res[other],
+                             {"failure": SWEEP_FAILURE, "entry": ENTRY, "has_ties": False, "no_shrink": True, "other_case": cases[first]}))
     return problems
 
 
@@ -422,6 +774,11 @@ def shrink(case: dict, still_fails) -> dict:
             cand = dict(cur)
             cand["ids"] = cur["ids"][:v] + cur["ids"][v + 1:]
             cand["sds"] = sds2
+            if cur.get("table_split") is not None:
+                ts = cur["table_split"][:v] + cur["table_split"][v + 1:]
+                if sorted(set(ts)) != list(range(max(ts) + 1)):
+                    continue  # would leave one of the own-column tables empty
+                cand["table_split"] = ts
             cand["edges"] = [(a - (a > v), b - (b > v), p) for a, b, p in cur["edges"]]
             budget -= 1
             if still_fails(cand):
@@ -445,7 +802,17 @@ def run(ctx: core.Ctx):
         "distinct probabilities; optional self loop) + tie-heavy inputs (1-3 distinct probabilities, duplicate and reversed rows; <= 7 records "
         "for the all-oracles membership test, <= 14 for the invariants); the duplicate-free subset cycles through every non-empty subset of the "
         "datasets; thresholds equal to an edge probability / 0 / random / match weight; every edge randomly oriented; node and edge rows "
-        "shuffled; link_only and link_and_dedupe; engines duckdb (1/4 threads; 16 in thorough) + sqlite; unique ids overlap across datasets. "
+        "shuffled; link_only and link_and_dedupe; engines duckdb (1/4 threads; 16 in thorough) + sqlite; unique ids overlap across datasets; "
+        "+ tie-free inputs whose probabilities differ from the 8th decimal on (threshold on / between them); probabilities exactly 0 and 1; thresholds "
+        "0.0 / int 0 / 1.0 / int 1 / weight 0 / both thresholds left at None.  Half of all cases are RE-PRESENTED: input form of the linker (frames; "
+        "lists of dicts / dicts of lists; names of existing tables with aliases equal to / different from / a cyclic shift of the table names, the "
+        "tables made by SQL or by db_api.register_table; several tables with their own source_dataset column, one per dataset or datasets spread "
+        "over them, aliases given or None; one pre-concatenated frame or table name, bare or in a list, alias a bare string or None), 5 pools of "
+        "dataset names (upper / mixed case, underscores and digits, one a prefix of another), int / str ids, custom unique_id / source_dataset "
+        "column names, per-table column orders, the order of the input tables, duplicate_free_datasets as list / tuple, shuffled, with a repeated "
+        "name, naming a dataset without records or an empty input table, edge labels as declared by the caller or as returned by the library's "
+        "predict() (joined back by a payload column), an earlier call with other arguments on the same linker; + form sweeps: a tie-free base in "
+        "every one of the 8 input forms (engines varying) must give one cluster table. "
         "non-trivial = at least two kept non-loop edges; distinct = hash of (records, edges, subset, threshold, engine, threads)."
     )
     ctx.assumptions = [
@@ -457,6 +824,11 @@ def run(ctx: core.Ctx):
         "SQL semantics of DuckDB/SQLite for joins, GROUP BY, min, row_number() (rank 1 = some row of maximal match_probability in its partition) are trusted",
         "weight thresholds whose probability lies within 1e-12 of an edge probability are excluded (floating point)",
         "which tie-break an engine realises is not modelled: tie-containing inputs are checked against the set of model outputs over all oracle pairs",
+        "a record's dataset is the name its caller gave it: the input_table_aliases entry of its table, or the value of the table's own "
+        "source_dataset column when the tables carry one; with several tables and no aliases no names are declared, so that form is only generated "
+        "for tables with their own column; link_type dedupe_only has no source datasets and is outside the property",
+        "the engines read the inlined threshold literal as the caller's double: DuckDB converts DECIMAL literals of 17-18 digits inexactly (~6% one "
+        "ulp off), SQLite 3.40 a few (core.sqlite_literal_exact); the fine-grained family draws its on-an-edge thresholds among exactly-read values",
     ]
     ctx.lean = core.lean_check(PROP, ctx.thorough)
     drv = core.Driver()
@@ -489,18 +861,27 @@ def run(ctx: core.Ctx):
             kind="concrete",
             match_info=mi,
         )
-    for c, w, r, mi in other[:3]:
+    picked, seen_f = [], set()
+    for t in other:  # one report per distinct failing clause (at most 4), in the order found
+        if t[3]["failure"] not in seen_f and len(picked) < 4:
+            seen_f.add(t[3]["failure"])
+            picked.append(t)
+    for c, w, r, mi in picked:
         failure = mi["failure"]
+        if mi.get("no_shrink"):
+            ctx.violation("real output violates C12: " + failure, {"case": c, "observed": r, "detail": w, "other_presentation": mi["other_case"]},
+                          kind="concrete", match_info={k: v for k, v in mi.items() if k not in ("no_shrink", "other_case")})
+            continue
 
         def still_fails(cand, failure=failure):
             rr = run_impl_safe(cand)
             if "__error__" in rr:
-                return failure == "real code raised"
-            return any(v.split(":")[0] == failure for v in oracle_verdicts(cand, rr["rows"])) and has_ties(cand) == mi["has_ties"]
+                return failure.startswith("real code raised")
+            return any(v.split(":")[0] == failure for v in oracle_verdicts(cand, rr["rows"], rr.get("labels"))) and has_ties(cand) == mi["has_ties"]
 
         small = shrink(c, still_fails)
         rr = run_impl_safe(small)
-        vs = oracle_verdicts(small, rr["rows"]) if "rows" in rr else [f"real code raised {rr.get('__error__')}: {rr.get('text', '')[:200]}"]
+        vs = oracle_verdicts(small, rr["rows"], rr.get("labels")) if "rows" in rr else [f"real code raised {rr.get('__error__')}: {rr.get('text', '')[:200]}"]
         ctx.violation(
             "real output violates C12: " + failure + (" (tie-free input)" if not mi["has_ties"] else ""),
             {"case": small, "observed": rr, "detail": vs or [w], "has_ties": has_ties(small), "original_case_size": len(c["ids"])},
